@@ -58,25 +58,32 @@ def build(c):
     elif b is not None:
         regions = {'lower': {'z_lo': 0.0, 'z_hi': b[0], 'vf_coolant': 0.3},
                    'upper': {'z_lo': b[1], 'z_hi': LCORE, 'vf_coolant': 0.3, 'model': c.get('upper', 'simple')}}
-    dsn = S.design(rings, regions=regions, lowfi=lowfi)
+    nd = c.get('ducts', 1)
+    if nd == 2:
+        dsn = S.design(rings, regions=regions, lowfi=lowfi, ducts=2, oftf=0.066, duct_t=[0.002, 0.003],
+                       byp_t=0.002, bypass_fraction=0.1)
+    else:
+        dsn = S.design(rings, regions=regions, lowfi=lowfi)
     nasm = c.get('nasm', 1)
-    cells = CELLS[c['cells']]
-    ncell = len(cells) - 1
+    cell_names = sorted(CELLS)
     specs = {}
     fulls = {}
     assign = []
     pos = S.core_positions(2)
     for i in range(nasm):
+        # every assembly has its own axial power mesh (assembly i uses the i-th next cell set)
+        cells = CELLS[cell_names[(cell_names.index(c['cells']) + i) % len(cell_names)]]
+        ncell = len(cells) - 1
         comp = COMPS[c['comps']]
         amp = [1.0 + 0.37 * k + 0.11 * i for k in range(ncell)]
         if c.get('zero_cell') is not None and c['zero_cell'] < ncell:
             amp[c['zero_cell']] = 0.0
-        spec = {'rings': rings, 'nduct': 1, 'cells': cells, 'q': 6000.0 * (1 + 0.2 * i),
+        spec = {'rings': rings, 'nduct': nd, 'cells': cells, 'q': 6000.0 * (1 + 0.2 * i),
                 'axial': [ORDER_SHAPES[c['order']]] * ncell, 'amp': amp, 'order': c['order'],
                 'seed': (c.get('seed', 0) + i) % 4}
         for k_ in ('pins', 'duct', 'cool'):
             spec[k_] = 'asym' if k_ in comp else None
-        full = S.expand_power(spec, rings, 1)
+        full = S.expand_power(spec, rings, nd)
         ring, p = pos[i]
         aid = S.asm_id(ring, p) + 1
         specs[str(aid)] = full
@@ -84,7 +91,8 @@ def build(c):
         assign.append(['A', ring, p, {'flowrate': 2.0 * (1 + 0.1 * i)}])
     setup = {}
     scn = {'setup': setup,
-           'core': {'inlet': 623.15, 'length': LCORE, 'pitch': 0.064, 'gap_model': c.get('gap_model', 'none'),
+           'core': {'inlet': 623.15, 'length': LCORE, 'pitch': 0.070 if nd == 2 else 0.064,
+                    'gap_model': c.get('gap_model', 'none'),
                     'bypass_fraction': 0.0 if c.get('gap_model', 'none') == 'none' else 0.05},
            'types': {'A': dsn}, 'assign': assign,
            'power': {'asm': specs, 'total': c.get('total'), 'scaling': c.get('scaling')}}
@@ -105,9 +113,14 @@ def sweep_once(c, scale_override=None):
         rx = b.reactor()
         rx.temperature_sweep()
         out = []
+        from .. import observe as O
         for a in rx.assemblies:
             reg = a.active_region
+            tm, mt = O.mixed_mean(reg)
+            cp = float(reg.coolant.heat_capacity)
             out.append({'id': a.id, 'delivered': {k: float(v) for k, v in a._power_delivered.items()},
+                        'enthalpy_rise': (tm - float(rx.inlet_temp)) * mt * cp,
+                        'adiabatic': bool(rx._is_adiabatic),
                         'total_power': float(a.total_power),
                         'T': np.concatenate([a.temp_coolant.ravel(), a.temp_duct_mw.ravel()]) - rx.inlet_temp,
                         'in_bundle_unaligned': None})
@@ -149,6 +162,12 @@ def run_case(c):
                                'heat deposited during the sweep differs from the power assigned '
                                '(ratio %.6f)' % (got / want if want else float('nan')),
                                got, want, TOL * scale))
+        # adiabatic, constant properties: everything deposited ends up in the coolant
+        if o['adiabatic'] and abs(o['enthalpy_rise'] - want) > 1e-8 * scale:
+            V.append(violation('deposited-heat-not-in-coolant', dict(c, asm=o['id']),
+                               'coolant enthalpy rise of the adiabatic assembly differs from the power assigned '
+                               '(ratio %.6f)' % (o['enthalpy_rise'] / want if want else float('nan')),
+                               o['enthalpy_rise'], want, 1e-8 * scale))
     want_core = float(tot_exact * norm * sc)
     if c.get('total') is not None:
         want_core2 = float(c['total']) * (float(c['scaling']) if c.get('scaling') is not None else 1.0)
@@ -213,6 +232,16 @@ def cases(tier):
                 out.append(dict(base, zero_cell=zc, bounds=bounds))
         out.append(dict(base, upper='6node'))
         out.append(dict(base, gap_model='flow', nasm=3))
+        for bounds in BOUNDS:
+            for comps in ('all', 'duct'):
+                for order in (0, 2):
+                    if bounds != 'lowfi':
+                        out.append(dict(base, ducts=2, bounds=bounds, comps=comps, order=order))
+        for nasm in (2, 3):
+            for cells in CELLS:
+                for step in ('limit', '3.7mm'):
+                    out.append(dict(base, nasm=nasm, cells=cells, step=step, bounds='whole'))
+                    out.append(dict(base, nasm=nasm, cells=cells, step=step, bounds='aligned'))
     else:
         for cells in CELLS:
             for bounds in BOUNDS:
@@ -238,6 +267,12 @@ def cases(tier):
             for bounds in BOUNDS:
                 for order in (0, 3):
                     out.append(dict(base, rings=rings, bounds=bounds, order=order))
+        for bounds in BOUNDS:
+            for comps in COMPS:
+                for order in (0, 1, 2, 3):
+                    for cells in CELLS:
+                        if bounds != 'lowfi':
+                            out.append(dict(base, ducts=2, bounds=bounds, comps=comps, order=order, cells=cells))
     seen = set()
     uniq = []
     for c in out:
